@@ -126,7 +126,7 @@ int main() {
           for (int i = 0; i < n; i++) for (int q = 1; q < gp->kpl; q++) { bool same = true;
               for (int u = 0; u < k && same; u++) same = memcmp(ck2->bk->bk[i].all_sample[q].a[u].coefsT, ck2->bk->bk[i].all_sample[q - 1].a[u].coefsT, 4 * (size_t) N) == 0;
               if (same) dupmask++; } }
-        long double q0 = 0, q1 = 0, r0 = 0, r1 = 0; long c0 = 0, c1 = 0, d0 = 0, d1 = 0;
+        long double q0 = 0, q1 = 0, r0 = 0, r1 = 0; long c0 = 0, c1 = 0, d0 = 0, d1 = 0; long double corr_z = 0; int corr_pair = 0;
         {
             const TGswParams *gp = ck2->bk->bk_params; const int l = gp->l;
             TorusPolynomial *ph = new_TorusPolynomial(N);
@@ -141,11 +141,23 @@ int main() {
                 for (int j = 0; j < t; j++) for (int h = 1; h < base; h++) {
                     int32_t e32 = lwePhase(&ks2->ks[i][j][h], sk->lwe_key) - (int32_t) ((uint32_t) (si * h) << (32 - (j + 1) * bb));
                     long double e = (long double) e32; if (si) { r1 += e * e; d1++; } else { r0 += e * e; d0++; } } }
+            // errors of two rows of one block (i,j) must be independent draws: correlation over all blocks, for every pair of rows that are
+            // not the trivial sample (0,0) - rows that share their noise differ by an unencrypted multiple of the key coefficient
+            const int PB = base < 8 ? base : 8; std::vector<long double> sxy(PB * PB, 0), sxx(PB * PB, 0), syy(PB * PB, 0); std::vector<long> cnt(PB * PB, 0);
+            for (int i = 0; i < ks2->n; i++) { int si = sk->tgsw_key->key[i / N].coefs[i % N];
+                for (int j = 0; j < t; j++) { long double e[8]; bool real[8];
+                    for (int h = 0; h < PB; h++) { const LweSample *row = &ks2->ks[i][j][h]; bool zero = row->b == 0; for (int q = 0; q < n && zero; q++) if (row->a[q]) zero = false;
+                        real[h] = !zero; e[h] = (long double) (int32_t) (lwePhase(row, sk->lwe_key) - (int32_t) ((uint32_t) (si * h) << (32 - (j + 1) * bb))); }
+                    for (int h = 0; h < PB; h++) for (int g = h + 1; g < PB; g++) if (real[h] && real[g]) { sxy[h * PB + g] += e[h] * e[g]; sxx[h * PB + g] += e[h] * e[h]; syy[h * PB + g] += e[g] * e[g]; cnt[h * PB + g]++; } } }
+            for (int h = 0; h < PB; h++) for (int g = h + 1; g < PB; g++) { long c = cnt[h * PB + g]; if (c < 200) continue;
+                long double den = sqrtl(sxx[h * PB + g] * syy[h * PB + g]); long double z = den > 0 ? fabsl(sxy[h * PB + g] / den) * sqrtl((long double) c) : 0;
+                if (sxx[h * PB + g] == 0 && syy[h * PB + g] == 0) z = 0;       // both noiseless (alpha = 0 sets): nothing to correlate
+                if (z > corr_z) { corr_z = z; corr_pair = h * 10 + g; } }
         }
         uint64_t hcb = 1469598103934665603ull; for (unsigned char ch : cb) { hcb ^= ch; hcb *= 1099511628211ull; }   // FNV-1a of the exported cloud key
-        printf("%zu %zu %d %zu %zu %d %d %d %d %d %d %d %d %d %d %d %d %d %d %ld %ld %ld %.0Lf %ld %.0Lf %ld %.0Lf %ld %.0Lf %ld %.0f %.0f %u %u %u %u\n", cb.size(), sb.size(), prefix ? 1 : 0, sb.size() - cb.size(), pb.size(), n, N, k,
+        printf("%zu %zu %d %zu %zu %d %d %d %d %d %d %d %d %d %d %d %d %d %d %ld %ld %ld %.0Lf %ld %.0Lf %ld %.0Lf %ld %.0Lf %ld %.0f %.0f %u %u %u %u %.0Lf %d\n", cb.size(), sb.size(), prefix ? 1 : 0, sb.size() - cb.size(), pb.size(), n, N, k,
                params->tgsw_params->l, params->ks_t, params->ks_basebit, found ? 1 : 0, re_c ? 1 : 0, re_s ? 1 : 0, gates_eq ? 1 : 0, dec_eq ? 1 : 0, fields ? 1 : 0, cross ? 1 : 0, dec_ok ? 1 : 0, clear, unmasked, c0, c0 ? sqrtl(q0 / c0) : 0.0L, c1, c1 ? sqrtl(q1 / c1) : 0.0L, d0, d0 ? sqrtl(r0 / d0) : 0.0L, d1, d1 ? sqrtl(r1 / d1) : 0.0L, dupmask, params->tgsw_params->tlwe_params->alpha_min * 4294967296., params->in_out_params->alpha_min * 4294967296.,
-               (unsigned) (hcb & 0xFFFF), (unsigned) ((hcb >> 16) & 0xFFFF), (unsigned) ((hcb >> 32) & 0xFFFF), (unsigned) ((hcb >> 48) & 0xFFFF));
+               (unsigned) (hcb & 0xFFFF), (unsigned) ((hcb >> 16) & 0xFFFF), (unsigned) ((hcb >> 32) & 0xFFFF), (unsigned) ((hcb >> 48) & 0xFFFF), corr_z * 100, corr_pair);
         fflush(stdout);
         delete_gate_bootstrapping_ciphertext(o2); delete_gate_bootstrapping_ciphertext(o1); delete_gate_bootstrapping_ciphertext_array(3, in);
         delete_gate_bootstrapping_secret_keyset(sk2); delete_gate_bootstrapping_cloud_keyset(ck2); delete_gate_bootstrapping_secret_keyset(sk);
